@@ -381,6 +381,19 @@ def _classify_arg(ctx, b, bi, t, callee, a0, rb):
         if w is not None:
             return ('ASCII', 'C13', f'text of a {S}', False, f'L({S}) is not ASCII-only: {w}')
         return ('ASCII' if not ctx.dfa[S][1] else 'UTF8', 'C13', f'text of a {S}', True, '')
+    # X::from_vec_unchecked: an unsafe alias of X::new_unchecked over the same bytes (its body is new_unchecked(from_utf8_unchecked(arg)))
+    if callee.endswith('::from_vec_unchecked'):
+        ab = ctx.P.body(callee)
+        alias = None
+        if ab is not None and ab.get('safety') == 'unsafe':
+            rt = ctx.I.terms(callee).ret()
+            if rt[0] == 'call' and rt[1].endswith('::new_unchecked') and rt[2]:
+                r0 = ctx.text_root(rt[2][0])
+                if r0 is not None and r0[:2] == ('arg', 1):
+                    alias = rt[1]
+        if alias is None:
+            return ('?', None, '', False, 'from_vec_unchecked is not the plain alias of new_unchecked on the same bytes')
+        callee = alias
     # X::new_unchecked
     m = re.search(r'::new_unchecked$', callee)
     if m:
